@@ -1,0 +1,13 @@
+//go:build verif
+
+package set
+
+// verifDefaultRand is the generator the package starts with (rand.New(globalSource{})),
+// remembered before any Verif hook replaces r.
+var verifDefaultRand = r
+
+// VerifSetShuffleDefault puts the package's own generator back behind r, undoing
+// VerifSetShuffleSeed / VerifSetShuffleSource, so that a run can exercise the default source.
+func VerifSetShuffleDefault() {
+	r = verifDefaultRand
+}
